@@ -161,13 +161,15 @@ pub fn run(key: &str, a: &[String], out: &mut Out) {
             let v: Vec<bool> = if a[0] == "~" { vec![] } else { a[0].chars().map(|c| c == '1').collect() };
             out.case(key, a, &[fmt_res_bdd(&catch(|| Bdd::from(BddValuation::new(v))))]);
         }
-        "C16.exactly" | "C16.upto" => {
+        // `…B`: the same calls with a large `k`, under keys of their own (the replay of the translated model, which
+        // loops `k` times in Lean, skips them; a few large-`k` cases stay under the plain keys)
+        "C16.exactly" | "C16.upto" | "C16.exactlyB" | "C16.uptoB" => {
             // n k vars => bdd | panic
             let n: u16 = a[0].parse().unwrap();
             let k: usize = a[1].parse().unwrap();
             let vars: Vec<BddVariable> = dec_usizes(&a[2]).into_iter().map(var).collect();
             let vs = BddVariableSet::new_anonymous(n);
-            let res = if key == "C16.exactly" { catch(|| vs.mk_sat_exactly_k(k, &vars)) } else { catch(|| vs.mk_sat_up_to_k(k, &vars)) };
+            let res = if key.starts_with("C16.exactly") { catch(|| vs.mk_sat_exactly_k(k, &vars)) } else { catch(|| vs.mk_sat_up_to_k(k, &vars)) };
             out.case(key, a, &[fmt_res_bdd(&res)]);
         }
         _ => panic!("unknown key {}", key),
@@ -284,6 +286,52 @@ pub fn gen(tier: Tier, rng: &mut Rng64, out: &mut Out) {
                     let k = rng.below(l.len() as u64 + 2) as usize;
                     for key in ["C16.exactly", "C16.upto"] { run(key, &[n.to_string(), k.to_string(), fmt_usizes(&l)], out); }
                 }
+            }
+        }
+    }
+    // --- thresholds at integer-width boundaries (`k` is a `usize`; the code loops `k` times, so the values are capped at
+    //     what the unmodified code runs in about a second: 2^20 for short lists; 2^32 and beyond would take from minutes
+    //     (empty list) to hours and are not run)
+    {
+        let n = 7usize;
+        let mut lists: Vec<Vec<usize>> = vec![vec![]];
+        for len in 1..=6usize {
+            let asc: Vec<usize> = (0..len).map(|i| (i * 7 / len).min(6)).collect::<std::collections::BTreeSet<_>>().into_iter().collect();
+            let asc: Vec<usize> = if asc.len() == len { asc } else { (0..len).collect() };
+            let mut desc = asc.clone(); desc.reverse();
+            let mut rep = asc.clone(); rep.push(asc[0]); rep.insert(1.min(rep.len()), asc[asc.len() - 1]);
+            lists.push(asc); lists.push(desc); lists.push(rep);
+        }
+        for (li, vars) in lists.iter().enumerate() {
+            let len = vars.len();
+            let mut ks: Vec<usize> = vec![len.saturating_sub(1), len, len + 1, 255, 256, 257];
+            let heavy = thorough || len <= 3 || li % 3 == 1;
+            if heavy { ks.extend([65534, 65535, 65536, 65537, 65536 + len]); } else { ks.extend([65535, 65536]); }
+            if thorough || len <= 2 || li == lists.len() - 3 { ks.push(1 << 17); }
+            if thorough || len <= 1 { ks.push(1 << 20); }
+            if thorough && len <= 2 { ks.push((1 << 20) + 1); }
+            ks.sort(); ks.dedup();
+            for k in ks {
+                for key in ["C16.exactly", "C16.upto"] {
+                    let key = if k >= 1000 { format!("{}B", key) } else { s(key) };
+                    run(&key, &[n.to_string(), k.to_string(), fmt_usizes(vars)], out);
+                }
+            }
+        }
+        // the smallest inputs on which a 16-bit truncation of `k` shows, spelled out
+        for key in ["C16.exactly", "C16.upto"] {
+            run(key, &[s("0"), s("65536"), s("~")], out);
+            run(key, &[s("4"), s("65536"), s("1,3")], out);
+            run(key, &[s("4"), s("65537"), s("1,3")], out);
+            run(key, &[s("4"), s("131072"), s("3,1")], out);
+        }
+        // one list with 20 variables
+        let vars20: Vec<usize> = (0..20).collect();
+        let ks20: Vec<usize> = if thorough { vec![19, 20, 21, 255, 256, 257, 65535, 65536, 65537] } else { vec![19, 20, 21, 255, 256, 257, 65536] };
+        for k in ks20 {
+            for key in ["C16.exactly", "C16.upto"] {
+                let key = if k >= 1000 { format!("{}B", key) } else { s(key) };
+                run(&key, &[s("20"), k.to_string(), fmt_usizes(&vars20)], out);
             }
         }
     }
